@@ -7,7 +7,12 @@ Steps (JSON lists):
   ["create"]                   create_table(root, schema)
   ["reopen"]                   load_table(root)
   ["sleep", s]                 (self-test of the harness's time limit; never generated)
-  ["append", n]                Table.append_records(n rows)              (one data file)
+  ["append", n]                one transaction, Transaction.append_data(n rows), commit      (one data file)
+  ["append_records", n]        Table.append_records(n rows): the convenience API              (one data file)
+  ["append_pandas", n]         Table.append_pandas(DataFrame of n rows) -> write_pandas_file: ONE write_batch of n rows
+                               (recorded as skipped -- ok=false, skipped=true -- when pandas is not installed)
+  ["append_prebuilt", [b1,..]] a data file written by the caller with the public DataFileWriter, one write_batch per bi
+                               (bi rows each), then adopted with Transaction.append_files + commit
   ["multi", [n1, n2, ...]]     one transaction, one append_data per n    (several data files)
   ["delete", k]                delete_files([k-th live data file])       (manifest rewritten or dropped)
   ["delete_append", k, n]      delete_files + append_data in one transaction
@@ -39,6 +44,24 @@ def _schema():
 
 def _rows(n: int, salt: int) -> List[Dict[str, Any]]:
     return [{"a": salt * 1000 + i, "s": f"r{salt}-{i}" * (1 + (i % 3))} for i in range(n)]
+
+
+def _prebuilt(root: str, table: Any, batches: List[int], salt: int) -> Any:
+    """A data file the caller writes itself with the library's public writer (one write_batch per entry of
+    `batches`), described by a DataFile without bounds, ready for Transaction.append_files."""
+    import pyarrow as pa
+    from datashard.data_operations import DataFileWriter
+    from datashard.data_structures import DataFile, FileFormat
+    arrow_schema = table.file_manager.data_file_manager.create_arrow_schema(_schema())
+    rel = f"/data/prebuilt_{salt}_{len(batches)}.parquet"
+    full = os.path.join(root, rel.lstrip("/"))
+    rows = 0
+    with DataFileWriter(full, FileFormat.PARQUET, arrow_schema) as w:
+        for b in batches:
+            w.write_batch(pa.Table.from_pylist(_rows(b, salt * 7 + rows), schema=arrow_schema))
+            rows += b
+    return DataFile(file_path=rel, file_format=FileFormat.PARQUET, partition_values={}, record_count=rows,
+                    file_size_in_bytes=os.path.getsize(full))
 
 
 def _syscall_mark(label: str) -> None:
@@ -115,7 +138,24 @@ def run_steps(root: str, steps: List[Any], mark: Callable[[str], None], mutation
                 else:
                     if table is None:
                         table = load_table(root)
-                    if kind == "append":
+                    if kind == "append_records":
+                        salt[0] += 1
+                        res["ok"] = bool(table.append_records(_rows(st[1], salt[0])))
+                    elif kind == "append_pandas":
+                        try:
+                            import pandas as pd
+                        except ImportError:
+                            res["ok"], res["skipped"] = False, True
+                        else:
+                            salt[0] += 1
+                            res["ok"] = bool(table.append_pandas(pd.DataFrame(_rows(st[1], salt[0]))))
+                    elif kind == "append_prebuilt":
+                        def body(tx: Any) -> None:
+                            salt[0] += 1
+                            tx.append_files([_prebuilt(root, table, st[1], salt[0])])
+                            tx.commit()
+                        _in_tx(table, res, body)
+                    elif kind == "append":
                         def body(tx: Any) -> None:
                             append(tx, res, st[1])
                             tx.commit()
